@@ -1,10 +1,12 @@
 (* C02 model driver: reads the op trace written by harness/cmd/c02 and prints one observable
-   line per op, in exactly the format the harness prints for the implementation. *)
+   line per op, in exactly the format the harness prints for the implementation.
+   Two kinds of cases: a VoteSet history (V / VN / P / M / X / XN / TC lines) and a HeightVoteSet
+   history (HNEW / HV / HR / HP lines). *)
 open Conv
 
 let bid h t p = { b_hash = n_of_string h; b_total = n_of_string t; b_phash = n_of_string p }
 
-(* ten tokens: sid sempty signer chain type height round bh bt bp time -> eleven actually *)
+(* eleven tokens: sid sempty signer chain type height round bh bt bp time *)
 let sig_of = function
   | [sid; se; sg; ch; ty; h; r; bh; bt; bp; tm] ->
     { s_id = n_of_string sid; s_empty = (se = "1"); s_signer = n_of_string sg; s_chain = n_of_string ch;
@@ -12,12 +14,17 @@ let sig_of = function
       s_bid = bid bh bt bp; s_time = n_of_string tm }
   | l -> failwith ("bad sig: " ^ String.concat " " l)
 
-let rec take n l = if n = 0 then [] else match l with [] -> [] | x :: t -> x :: take (n-1) t
-let rec drop n l = if n = 0 then l else match l with [] -> [] | _ :: t -> drop (n-1) t
+let vote_of = function
+  | idx :: addr :: h :: r :: ty :: tm :: bh :: bt :: bp :: sg ->
+    { v_idx = n_of_string idx; v_addr = n_of_string addr; v_height = n_of_string h;
+      v_round = n_of_string r; v_type = n_of_string ty; v_time = n_of_string tm;
+      v_bid = bid bh bt bp; v_sig = sig_of sg }
+  | l -> failwith ("bad vote: " ^ String.concat " " l)
 
 let str_bid b = Printf.sprintf "%s:%s:%s" (string_of_n b.b_hash) (string_of_n b.b_total) (string_of_n b.b_phash)
 let str_maj = function None -> "-" | Some b -> str_bid b
 let b01 b = if b then "1" else "0"
+let str_bits bits = String.concat "" (List.map b01 bits)
 let str_verr = function
   | ENone -> "none" | EUnexpectedStep -> "step" | EInvalidIndex -> "index" | EInvalidAddress -> "addr"
   | ENonDetSig -> "nondet" | EInvalidSig -> "sig" | EConflict -> "conflict"
@@ -25,23 +32,46 @@ let str_cerr = function
   | COk -> "ok" | CBasic -> "basic" | CSize -> "size" | CHeight -> "height" | CBlockID -> "blockid"
   | CSig -> "sig" | CAddr -> "addr" | CPower -> "power"
 
-let str_obs = function
-  | ObVote (added, e, maj, any, all, bits) ->
-    Printf.sprintf "v %s %s %s %s %s %s" (b01 added) (str_verr e) (str_maj maj) (b01 any) (b01 all)
-      (if bits = [] then "-" else String.concat "" (List.map b01 bits))
-  | ObPeer (e, maj) -> Printf.sprintf "p %s %s" (b01 e) (str_maj maj)
-  | ObCommit None -> "m -"
-  | ObCommit (Some c) ->
-    Printf.sprintf "m %s %s %s %s" (string_of_n c.c_height) (string_of_n c.c_round) (str_bid c.c_bid)
-      (String.concat ";" (List.map (fun cs ->
-           Printf.sprintf "%s,%s,%s,%s" (string_of_n cs.cs_flag) (string_of_n cs.cs_addr)
-             (string_of_n cs.cs_time) (string_of_n cs.cs_sig.s_id)) c.c_sigs))
-  | ObVerify e -> "x " ^ str_cerr e
+let pool : blockid list ref = ref []
+
+(* every public observable of a vote set, as harness vsObs *)
+let str_vs vs =
+  Printf.sprintf "%s %s %s %s ids=%s bb=%s ic=%s" (str_maj vs.vs_maj23) (b01 (has_two_thirds_any vs)) (b01 (has_all vs))
+    (str_bits (bit_array vs))
+    (String.concat "," (List.map string_of_n (votes_ids vs)))
+    (String.concat "/" (List.map (fun b -> match bits_by_block vs b with None -> "nil" | Some l -> str_bits l) !pool))
+    (b01 (is_commit vs))
+
+let str_commit c =
+  Printf.sprintf "%s %s %s %s" (string_of_n c.c_height) (string_of_n c.c_round) (str_bid c.c_bid)
+    (String.concat ";" (List.map (fun cs ->
+         Printf.sprintf "%s,%s,%s,%s" (string_of_n cs.cs_flag) (string_of_n cs.cs_addr)
+           (string_of_n cs.cs_time) (string_of_n cs.cs_sig.s_id)) c.c_sigs))
+
+(* HeightVoteSet digest, as harness digest(): tracked round, existing rounds, POLInfo, majorities *)
+let str_hvs s =
+  let rounds = List.sort compare (List.map (fun (r, _) -> int_of_string (string_of_n r)) s.h_sets) in
+  let rs = String.concat "," (List.map string_of_int rounds) in
+  let (pr, pb) = pol_info s in
+  let majs = String.concat ";" (List.map (fun r ->
+      match rs_find (n_of_string (string_of_int r)) s.h_sets with
+      | Some rv -> Printf.sprintf "%d:%s/%s" r (str_maj rv.rv_pre.vs_maj23) (str_maj rv.rv_com.vs_maj23)
+      | None -> "") rounds) in
+  Printf.sprintf "R=%s rounds=%s pol=%s:%s maj=%s" (string_of_n s.h_round) rs (string_of_n pr) (str_bid pb) majs
 
 let () =
   let lines = ref (read_lines stdin) in
   let next () = match !lines with [] -> None | l :: t -> lines := t; Some (tokens l) in
+  let peek () = match !lines with [] -> None | l :: _ -> Some (tokens l) in
   let vs = ref (new_voteset N0 N0 N0 N0 []) in
+  let hv : hvs option ref = ref None in
+  let hdr = ref (N0, N0, []) in
+  let read_sigs ns =
+    List.init ns (fun _ ->
+        match next () with
+        | Some ("S" :: flag :: addr :: tm :: sg) ->
+          { cs_flag = n_of_string flag; cs_addr = n_of_string addr; cs_time = n_of_string tm; cs_sig = sig_of sg }
+        | _ -> failwith "expected S") in
   let rec loop () =
     match next () with
     | None -> ()
@@ -52,29 +82,104 @@ let () =
           match next () with
           | Some ["VAL"; a; p] -> { val_addr = n_of_string a; val_power = z_of_string p }
           | _ -> failwith "expected VAL") in
+      let rec blocks acc = match peek () with
+        | Some ["B"; bh; bt; bp] -> ignore (next ()); blocks (bid bh bt bp :: acc)
+        | _ -> List.rev acc in
+      pool := blocks [];
       vs := new_voteset (n_of_string chain) (n_of_string h) (n_of_string r) (n_of_string ty) vals;
+      hdr := (n_of_string chain, n_of_string h, vals);
+      hv := None;
       Printf.printf "CASE %s\n" id; loop ()
-    | Some ("V" :: idx :: addr :: h :: r :: ty :: tm :: bh :: bt :: bp :: sg) ->
-      let v = { v_idx = n_of_string idx; v_addr = n_of_string addr; v_height = n_of_string h;
-                v_round = n_of_string r; v_type = n_of_string ty; v_time = n_of_string tm;
-                v_bid = bid bh bt bp; v_sig = sig_of sg } in
-      let (vs', ob) = step !vs (OpVote v) in
-      vs := vs'; print_endline (str_obs ob); loop ()
+    | Some ("V" :: toks) ->
+      let ((vs', added), e) = add_vote_o !vs (Some (vote_of toks)) in
+      vs := vs';
+      Printf.printf "v %s %s %s\n" (b01 added) (match e with Some e -> str_verr e | None -> "nil") (str_vs vs'); loop ()
+    | Some ("VB" :: toks) ->
+      Printf.printf "vb %s\n" (b01 (vote_validate_basic (vote_of toks))); loop ()
+    | Some ("VV" :: addr :: toks) ->
+      Printf.printf "vv %s\n" (match vote_verify !vs.vs_chain (n_of_string addr) (vote_of toks) with
+          | VVOk -> "none" | VVAddr -> "addr" | VVSig -> "sig"); loop ()
+    | Some ["VN"] ->
+      let ((vs', added), e) = add_vote_o !vs None in
+      vs := vs';
+      Printf.printf "v %s %s %s\n" (b01 added) (match e with Some e -> str_verr e | None -> "nil") (str_vs vs'); loop ()
     | Some ["P"; peer; bh; bt; bp] ->
-      let (vs', ob) = step !vs (OpPeer (n_of_string peer, bid bh bt bp)) in
-      vs := vs'; print_endline (str_obs ob); loop ()
+      (match step !vs (OpPeer (n_of_string peer, bid bh bt bp)) with
+       | (vs', ObPeer (e, _)) -> vs := vs'; Printf.printf "p %s %s\n" (b01 e) (str_vs vs')
+       | _ -> failwith "step");
+      loop ()
     | Some ["M"] ->
-      let (_, ob) = step !vs OpMakeCommit in print_endline (str_obs ob); loop ()
+      (match make_commit !vs with
+       | None -> print_endline "m -"
+       | Some c -> print_endline ("m " ^ str_commit c));
+      loop ()
     | Some ("X" :: wh :: wt :: wp :: h :: ch :: cr :: cbh :: cbt :: cbp :: ns :: _) ->
-      let ns = int_of_string ns in
-      let sigs = List.init ns (fun _ ->
-          match next () with
-          | Some ("S" :: flag :: addr :: tm :: sg) ->
-            { cs_flag = n_of_string flag; cs_addr = n_of_string addr; cs_time = n_of_string tm; cs_sig = sig_of sg }
-          | _ -> failwith "expected S") in
+      let sigs = read_sigs (int_of_string ns) in
       let c = { c_height = n_of_string ch; c_round = n_of_string cr; c_bid = bid cbh cbt cbp; c_sigs = sigs } in
-      let (_, ob) = step !vs (OpVerify (bid wh wt wp, n_of_string h, c)) in
-      print_endline (str_obs ob); loop ()
+      (match verify_commit_x !vs.vs_vals !vs.vs_chain (bid wh wt wp) (n_of_string h) (Some c) with
+       | XErr e -> print_endline ("x " ^ str_cerr e)
+       | XPanic -> print_endline "x PANIC"
+       | XNilCommit -> print_endline "x nilcommit");
+      loop ()
+    | Some ["XN"; wh; wt; wp; h] ->
+      (match verify_commit_x !vs.vs_vals !vs.vs_chain (bid wh wt wp) (n_of_string h) None with
+       | XErr e -> print_endline ("x " ^ str_cerr e)
+       | XPanic -> print_endline "x PANIC"
+       | XNilCommit -> print_endline "x nilcommit");
+      loop ()
+    | Some ("TC" :: ch :: cr :: cbh :: cbt :: cbp :: ns :: _) ->
+      let sigs = read_sigs (int_of_string ns) in
+      let c = { c_height = n_of_string ch; c_round = n_of_string cr; c_bid = bid cbh cbt cbp; c_sigs = sigs } in
+      (match commit_to_voteset !vs.vs_chain c !vs.vs_vals with
+       | None -> print_endline "t PANIC"
+       | Some vs2 ->
+         Printf.printf "t %s | %s\n" (str_vs vs2)
+           (match make_commit vs2 with None -> "-" | Some c2 -> str_commit c2));
+      loop ()
+    | Some ["HNEW"] ->
+      let (chain, h, vals) = !hdr in
+      (match hvs_new chain h vals with
+       | Some s -> hv := Some s; print_endline ("h " ^ str_hvs s)
+       | None -> print_endline "h PANIC");
+      loop ()
+    | Some ("HV" :: peer :: toks) ->
+      (match !hv with
+       | None -> print_endline "hv PANIC"
+       | Some s ->
+         let v = vote_of toks in
+         (match hvs_add_vote s v (n_of_string peer) with
+          | (_, HPanic) -> hv := None; print_endline "hv PANIC"
+          | (s', res) ->
+            hv := Some s';
+            let (a, e) = match res with
+              | HNilType -> ("0", "niltype") | HUnwanted -> ("0", "unwanted")
+              | HVoted (a, e) -> (b01 a, str_verr e) | HPanic -> ("0", "PANIC") in
+            let touched =
+              if type_valid v.v_type then
+                (match get_vs s' v.v_round v.v_type with Some x -> str_vs x | None -> "none")
+              else "none" in
+            Printf.printf "hv %s %s %s | %s\n" a e (str_hvs s') touched));
+      loop ()
+    | Some ["HR"; r] ->
+      (match !hv with
+       | None -> print_endline "hr PANIC"
+       | Some s ->
+         (match hvs_set_round s (n_of_string r) with
+          | None -> hv := None; print_endline "hr PANIC"
+          | Some s' -> hv := Some s'; print_endline ("hr " ^ str_hvs s')));
+      loop ()
+    | Some ["HP"; r; ty; peer; bh; bt; bp] ->
+      (match !hv with
+       | None -> print_endline "hp PANIC"
+       | Some s ->
+         let (s', e) = hvs_set_peer_maj23 s (n_of_string r) (n_of_string ty) (n_of_string peer) (bid bh bt bp) in
+         hv := Some s';
+         let touched =
+           if type_valid (n_of_string ty) then
+             (match get_vs s' (n_of_string r) (n_of_string ty) with Some x -> str_vs x | None -> "none")
+           else "none" in
+         Printf.printf "hp %s %s | %s\n" (b01 e) (str_hvs s') touched);
+      loop ()
     | Some l -> failwith ("bad line: " ^ String.concat " " l)
   in
   loop ()
